@@ -37,6 +37,7 @@ package main
 
 import (
 	"bufio"
+	"bytes"
 	"encoding/hex"
 	"encoding/json"
 	"fmt"
@@ -44,6 +45,7 @@ import (
 	"os/exec"
 	"path/filepath"
 	"regexp"
+	"runtime"
 	"runtime/debug"
 	"runtime/metrics"
 	"runtime/pprof"
@@ -246,6 +248,20 @@ func altOps(e *enc) []altOp {
 	for _, p := range pos {
 		ops = append(ops, altOp{"drop", p, 0}, altOp{"dup", p, 0})
 	}
+	// consistent growth: a 2- or 4-byte big-endian field read as the length of the data that follows it is raised by
+	// d and d bytes are inserted at the end of that data (a longer but well-framed field: passes "enough bytes left")
+	for wi, w := range []int{2, 4} {
+		for _, p := range pos {
+			if p+w > L {
+				continue
+			}
+			if cur := beGet(e.B[p : p+w]); cur > 0 && uint64(p+w)+cur <= uint64(L) {
+				for _, d := range []uint64{1, 9} {
+					ops = append(ops, altOp{[...]string{"grow16", "grow32"}[wi], p, d})
+				}
+			}
+		}
+	}
 	return ops
 }
 
@@ -259,6 +275,16 @@ func applyOp(b []byte, o altOp) []byte {
 		return append(append([]byte{}, b[:o.pos]...), b[o.pos+1:]...)
 	case "dup":
 		return append(append(append([]byte{}, b[:o.pos+1]...), b[o.pos]), b[o.pos+1:]...)
+	}
+	if o.kind == "grow16" || o.kind == "grow32" {
+		w := map[string]int{"grow16": 2, "grow32": 4}[o.kind]
+		cur := beGet(b[o.pos : o.pos+w])
+		end := o.pos + w + int(cur)
+		out := append([]byte{}, b[:end]...)
+		out = append(out, bytes.Repeat([]byte{0xEE}, int(o.val))...)
+		out = append(out, b[end:]...)
+		bePut(out[o.pos:o.pos+w], cur+o.val)
+		return out
 	}
 	out := append([]byte{}, b...)
 	w := map[string]int{"set8": 1, "set16": 2, "set32": 4, "set64": 8}[o.kind]
@@ -463,6 +489,14 @@ func childMain() {
 			}
 			over := measure && alloc > allocBase+64*uint64(len(in))+allocSlack
 			if over {
+				if pf := os.Getenv("C16_ALLOCTRACE"); pf != "" { // debugging aid: allocation profile of the offending call
+					runtime.GC()
+					runtime.GC()
+					if f, err := os.Create(pf); err == nil {
+						pprof.Lookup("allocs").WriteTo(f, 1)
+						f.Close()
+					}
+				}
 				r.BigAllocs++
 				r.Outcomes["alloc>budget"]++
 				send(vmsg{Class: "alloc", At: "-", Desc: inputDesc(in, desc), Hex: hexOf(in), I: i,
